@@ -182,11 +182,11 @@ func genC19(r *Runner) {
 						impl["ok"] = k
 					}
 					r.Submit(&Case{ID: fmt.Sprintf("c%d-t%d", ci, ti), K: "trust",
-						In:    map[string]any{"chain": absOf(chains[ci]), "trusted": absOf(trusts[ti])},
-						Impl:  impl,
-						Class: fmt.Sprintf("chain%d-trust%d", len(chains[ci]), len(trusts[ti])),
+						In:      map[string]any{"chain": absOf(chains[ci]), "trusted": absOf(trusts[ti])},
+						Impl:    impl,
+						Class:   fmt.Sprintf("chain%d-trust%d", len(chains[ci]), len(trusts[ti])),
 						Trivial: len(trusts[ti]) == 0,
-						Replay: map[string]any{"chain": chains[ci], "trusted": trusts[ti]}})
+						Replay:  map[string]any{"chain": chains[ci], "trusted": trusts[ti]}})
 				}
 			}
 		}()
